@@ -169,6 +169,23 @@ class PlanLower:
             self.nv += 1; v = f"v{self.nv}"; self.names.append(f"{v}={s[1]}")
             env2 = dict(env); env2[s[1]] = (v, "buf")
             return [pad + o for o in ops] + [pad + f"let {v} : Nat := {a}"] + cont(env2, ind)
+        if s[0] == "let" and isinstance(s[1], str) and not s[2] and s[4] is not None and sp(s[4])[0] == "if":
+            # `let x = if c { a } else { b };` with statement-free branches: the (possibly overflow-checked) branch values are computed INSIDE their branch
+            e = sp(s[4]); ops = []; c, t = self.ex(e[1], env, ops)
+            if t != "bool": self.fail("`if` on a " + t, s[5])
+            if e[3] is None or not (isinstance(e[3], tuple) and len(e[3]) == 2 and isinstance(e[3][0], list)): self.fail("value-`if` without a plain `else { .. }`", s[5])
+            vals = []
+            for b in (e[2], e[3]):
+                if b[0] or b[1] is None: self.fail("value-`if` branch with statements", s[5])
+                o2 = []; a, tb = self.ex(b[1], env, o2); vals.append((o2, a, tb))
+            tys = {tb for _, _, tb in vals} - {"lit"}
+            if tys - {"nat"}: self.fail(f"value-`if` of type {tys}", s[5])
+            self.nv += 1; v = f"v{self.nv}"; self.names.append(f"{v}={s[1]}")
+            env2 = dict(env); env2[s[1]] = (v, "nat")
+            def br(o2, a): return ["(do"] + ["    " + o for o in o2] + [f"    pure {a})"]
+            lines = [pad + o for o in ops] + [pad + f"let {v} : Nat ← if {c} then"] + [pad + "    " + x for x in br(vals[0][0], vals[0][1])] + \
+                    [pad + "  else"] + [pad + "    " + x for x in br(vals[1][0], vals[1][1])]
+            return lines + cont(env2, ind)
         if s[0] == "let":
             if not isinstance(s[1], str) or s[2] or s[4] is None: self.fail("only `let x = e;` (immutable, initialised) is accepted", s[5])
             ops = []; a, t = self.ex(s[4], env, ops)
@@ -183,8 +200,17 @@ class PlanLower:
             return self.epilogue(env, ind)
         if s[0] == "for":
             if not isinstance(s[1], str): self.fail("`for` pattern", ln)
-            ops = []; xs, t = self.ex(s[2], env, ops)
-            if t not in ("nlist", "ilist") or ops: self.fail("`for x in e`: e must be a list variable", ln)
+            ops = []
+            if sp(s[2])[0] == "range":          # `for i in lo..hi` (exclusive): the indices lo, lo+1, .., hi-1 in order
+                r = sp(s[2])
+                if r[1] is None or r[2] is None or r[3]: self.fail("only `lo..hi` ranges are accepted", ln)
+                lo, tl = self.ex(r[1], env, ops); hi, th = self.ex(r[2], env, ops)
+                if tl not in ("nat", "lit") or th not in ("nat", "lit"): self.fail(f"range over {tl}..{th}", ln)
+                xs, t = f"(List.range' {lo} ({hi} - {lo}))", "nlist"
+            else:
+                xs, t = self.ex(s[2], env, ops)
+                if ops: self.fail("`for x in e`: e must be a list variable", ln)
+            if t not in ("nlist", "ilist"): self.fail("`for x in e`: e must be a list variable or a range", ln)
             body = self.block_stmts(s[3])
             pushed = sorted(self.pushed(body), key=lambda n: self.muts.index(n))
             if not pushed: self.fail("`for` loop without an effect on a `&mut Vec` pseudo-parameter", ln)
@@ -196,7 +222,7 @@ class PlanLower:
             inner = self.seq(body, env2, kb, ind + 4, True)
             head = [pad + f"let {tup} ← {xs}.foldlM (fun (st : {tupty}) ({v} : {LEANTY[env2[s[1]][1]]}) => do",
                     pad + f"    let {tup} := st"]
-            return head + inner + [pad + f"  ) {tup}"] + cont(env, ind)
+            return [pad + o for o in ops] + head + inner + [pad + f"  ) {tup}"] + cont(env, ind)
         if s[0] != "expr": self.fail(f"statement `{s[0]}`", ln)
         e = sp(s[1])
         if e[0] == "panic": return [pad + ".error .refused"]
@@ -336,7 +362,78 @@ TABLE = [
     {"fn": "complex_conjugate_inplace", "lean": "complex_conjugate_inplace", "skeleton": SK_CCONJ, "model": "scheme gate CKKS"},
 ]
 
-SPEC = {"gal_mode": True, "ns": "GenGal", "imports": ["Heathcliff.Gen.GaloisFns", "Heathcliff.Gen.Word2Fns", "Heathcliff.Model.Scheme"], "table": TABLE}
+# ------------------------------------------------------------------------------------------------------------------------------------
+# `switch_key_inplace_internal` (src/evaluator.rs): the function as a whole is outside the parser's subset (tuple patterns in `for`, `unsafe` values, ...);
+# two FRAGMENTS are translated ("fragment mode" as in tools/rs2lean_ctx.py: contiguous top-level statements located by structure, never by names of locals):
+#   prologue   : the top-level statements from the first one up to and including the statement `match <scheme> { .. }` (the refusals);
+#   key_indices: the header of the FIRST top-level RANGE loop (`for <var> in 0..<bound>`; the loop over the RNS indices) and the FIRST statement of its body, which must be a `let` (the choice of the key-level
+#                modulus / NTT table for RNS index i), preceded by the immutable top-level `let`s they (transitively) mention; the translator appends the
+#                synthetic statement `plan.push(<that let's name>);` and closes the loop: the result is the list of key-level indices used for i = 0, 1, ..
+# TRUSTED readings: the tables below; for `key_indices` additionally that the rest of the loop body uses the variable as its table index (inspected by hand:
+# `key_modulus[key_index]`, `key_ntt_tables[key_index]`, `poly_component(k, key_index)`).
+SKP = "self.get_context_data(encrypted.parms_id())"
+KCDS = "self.context.key_context_data().unwrap()"
+SK_SWITCH_PROLOGUE = {
+    "sig": "fn switch_key_prologue(scheme: SchemeType, ntt: bool, valid: bool, using_ks: bool, keys_ok: bool, index: usize, nkeys: usize, plan: &mut Vec<usize>)",
+    "match_stmt": True,
+    "handles": ["encrypted.parms_id()", SKP, SKP + ".parms()", KCDS, KCDS + ".parms()"],
+    "exprs": {"self.context.using_keyswitching()": "using_ks", "kswitch_keys.parms_id() != self.context.key_parms_id()": "!keys_ok",
+              "kswitch_kes_index >= kswitch_keys.data().len()": "index >= nkeys", SKP + ".parms().scheme()": "scheme", "encrypted.is_ntt_form()": "ntt"},
+    "effects": {"self.check_ciphertext(encrypted)": "assert!(valid);"},
+    "optional": [KCDS, KCDS + ".parms()"]}
+SK_SWITCH_KEYIDX = {
+    "sig": "fn switch_key_indices(dsz: usize, ksz: usize, plan: &mut Vec<usize>)",
+    "handles": ["encrypted.parms_id()", SKP, SKP + ".parms()", KCDS, KCDS + ".parms()", KCDS + ".parms().coeff_modulus()"],
+    "exprs": {SKP + ".parms().coeff_modulus().len()": "dsz", KCDS + ".parms().coeff_modulus().len()": "ksz"},
+    "effects": {}}
+FRAGMENTS = [
+    {"fn": "switch_key_inplace_internal", "lean": "switch_key_prologue", "kind": "prologue", "skeleton": SK_SWITCH_PROLOGUE, "model": "refusals of switchKey"},
+    {"fn": "switch_key_inplace_internal", "lean": "switch_key_indices", "kind": "key_indices", "skeleton": SK_SWITCH_KEYIDX, "model": "keyIndex of ksAccumulate"},
+]
+
+
+def fragment_text(m, repo, ent):
+    """(text of the pseudo-function, first line) for one fragment of an `impl Evaluator` method"""
+    import rs2lean_ctx as C
+    U = m.Unsupported; what = f"fragment {ent['lean']} of fn {ent['fn']}"
+    src = m.strip_comments(open(m.os.path.join(repo, EV)).read())
+    off, line = m.find_fn(src, ent["fn"], EV)
+    j = src.index("{", off); end = m.brace_block(src, j, what)
+    sig = src[off:j]
+    blk = src[j + 1:end - 1]
+    st = C.split_stmts(blk, what, U)
+    texts = [blk[a:b] for a, b in st]
+    if ent["kind"] == "prologue":
+        hits = [k for k, t in enumerate(texts) if re.match(r"match\b", t)]
+        if not hits: raise U(f"{what}: no top-level `match` statement")
+        body = "\n".join(texts[:hits[0] + 1])
+    else:
+        hits = [k for k, t in enumerate(texts) if re.match(r"for\s+[a-z_]\w*\s+in\s+0\s*\.\.", t)]
+        if not hits: raise U(f"{what}: no top-level `for <var> in 0..` statement")
+        k0 = hits[0]; ft = texts[k0]
+        jb = ft.index("{"); eb = m.brace_block(ft, jb, what)
+        inner = ft[jb + 1:eb - 1]
+        ist = C.split_stmts(inner, what, U)
+        if not ist: raise U(f"{what}: empty loop body")
+        first = inner[ist[0][0]:ist[0][1]]
+        mm = re.match(r"let\s+([a-z_]\w*)\s*=", first)
+        if not mm: raise U(f"{what}: the first statement of the loop body is not an immutable `let NAME = ..`")
+        frag = ft[:jb + 1] + "\n" + first + f"\nplan.push({mm.group(1)});\n}}"
+        lets = []
+        for t in texts[:k0]:
+            ml = re.match(r"let\s+([a-z_]\w*)\s*=\s*(.*);\s*$", " ".join(t.split()), re.S)
+            if ml: lets.append((ml.group(1), t))
+        need = C.idents(frag); chosen = []
+        changed = True
+        while changed:
+            changed = False
+            for nm, t in lets:
+                if nm in need and t not in chosen: chosen.append(t); need |= C.idents(t); changed = True
+        body = "\n".join([t for _, t in lets if t in chosen]) + "\n" + frag
+    return sig + "{\n" + body + "\n}", line
+
+
+SPEC = {"gal_mode": True, "ns": "GenGal", "imports": ["Heathcliff.Gen.GaloisFns", "Heathcliff.Gen.Word2Fns", "Heathcliff.Model.Scheme"], "table": TABLE, "fragments": FRAGMENTS}
 
 
 def generate(m, tr, spec):
@@ -349,6 +446,19 @@ def generate(m, tr, spec):
         try:
             fn = m.parse_fn(tr.repo, EV, ent["fn"], "Evaluator")
             ft = m.FnTranslate(tr, fn, {"skeleton": ent["skeleton"]})
+            new = m.Skeleton(ft, ft.fn, ent["skeleton"]).run()
+            out.append(PlanLower(m, new, what).run(ent["lean"]))
+        except U as ex: raise U(f"{what}: {ex}" if what not in str(ex) else str(ex))
+    for ent in spec.get("fragments", []):
+        what = f"rs2lean: {EV}: fragment {ent['lean']} of fn {ent['fn']} (plan mode)"
+        try:
+            text, ln = fragment_text(m, tr.repo, ent)
+            toks = m.tokenize(text, ln)
+            pf = m.Parser(toks, ent["fn"]).fn_item()
+            norm = " ".join(t[1] for t in toks)
+            pf.update({"file": EV, "line0": ln, "line1": ln + text.count("\n"), "hash": hashlib.sha256(norm.encode()).hexdigest()[:16], "norm": norm,
+                       "selfty": "Evaluator", "aliases": {}, "impl": "Evaluator"})
+            ft = m.FnTranslate(tr, pf, {"skeleton": ent["skeleton"]})
             new = m.Skeleton(ft, ft.fn, ent["skeleton"]).run()
             out.append(PlanLower(m, new, what).run(ent["lean"]))
         except U as ex: raise U(f"{what}: {ex}" if what not in str(ex) else str(ex))
